@@ -58,6 +58,12 @@ def run(rep, tier, seed, budget):
         plan.append(("spelling template %d" % i, lambda t=t: make_slots("s", t), {"template": t}, "relaxed"))
     for i, t in enumerate(c04.TEMPLATES4):
         plan.append(("stereo template %d (marks on chain and ring-closure bonds, chiral centres)" % i, lambda t=t: make_slots("s", t), {"template": t}, "relaxed"))
+    ADD = ["C", "CC", "CCC", "CCCC"]
+    for nm, t in (("ring span at the 1/2 index-symbol boundary (Q = 14..17)", ["C1", "C" * 14, ADD, "1", ["", "N"]]),
+                  ("branch length at the 1/2 index-symbol boundary (Q = 14..17)", ["C(", "C" * 14, ADD, ")N"]),
+                  ("ring span at the 2/3 index-symbol boundary (Q = 254..257)", ["C1", "C" * 254, ADD, "1"]),
+                  ("branch length at the 2/3 index-symbol boundary (Q = 254..257)", ["C(", "C" * 254, ADD, ")N"])):
+        plan.append((nm, lambda t=t: make_slots("s", t), {"template": [x if len(x) < 30 else "C*%d" % len(x) for x in t]}, "relaxed"))
     for i, t in enumerate(c03.spacer_inputs()[:2 if quick else 4]):
         plan.append(("long ring span / branch %d (1, 2, 3 index symbols)" % i, lambda t=t: make_slots("s", t),
                      {"template": [x if len(x) < 30 else "C*%d" % len(x) for x in t]}, "relaxed"))
